@@ -20,6 +20,14 @@ pub struct HnswIndex<V, G> {
 }
 
 impl<V, G> HnswIndex<V, G> {
+    pub fn vector_store(&self) -> &V {
+        &self.vector_store
+    }
+
+    pub fn graph_store(&self) -> &G {
+        &self.graph_store
+    }
+
     pub fn new(params: HnswParams, vector_store: V, graph_store: G) -> Self {
         Self {
             params,
